@@ -168,6 +168,8 @@ func check(c Case) error {
 	if merr != nil {
 		return fmt.Errorf("bad case (model): %v", merr)
 	}
+	// a render that kills the process (runaway recursion) is attributed to this case by the driver
+	run.Inflight(prop, "random", c)
 	got, err := render(c)
 	if err != nil {
 		return fmt.Errorf("render failed: %v\n%s", err, describe(c))
@@ -245,8 +247,24 @@ func TestProp(t *testing.T) {
 		}
 		return true
 	})
+	edge := 0
 	if done {
-		rec.Exhaustive(fmt.Sprintf("core: slot sets x fallback x props x loop x twice x every supply form per slot x 1-2 instances (%d cases)", n))
+		enumEdge(func(c Case) bool {
+			edge++
+			if edge%shards != shard {
+				return true
+			}
+			nt, cls := classify(c)
+			cls = append(cls, "supplied-content-renders-nothing")
+			if !run.Each(rec, "core", c, nt, cls, check) {
+				done = false
+				return false
+			}
+			return true
+		})
+	}
+	if done {
+		rec.Exhaustive(fmt.Sprintf("core: slot sets x fallback x props x loop x twice x every supply form per slot x 2 instances (%d cases) + supplied-but-empty content x every form (%d cases)", n, edge))
 	}
 
 	run.Rapid(t, rec, "random", func(t *rapid.T) Case { return genCase(t, ex, rec) }, classify, check)
